@@ -185,3 +185,22 @@ def fill(claim, na):
           "unparseable hints are dropped; encode_hint/get_connection_hints write exactly the keys, type strings and field mapping the "
           "parsers read. a hint whose endpoint fails at once is one failed contender and never the end of the race (C20.R4 = the race discipline of C07). A non-object in hint position is outside the property's quantifier and not reported. DNS/endpoints out of scope.",
           "T1, T2; exceptions caught by an enclosing try in the same function are honoured", "DESIGN.md 4/C20")
+
+
+# sentences appended to the level text: the ordering / error-path rules added after the third seed round (DESIGN.md 12.8)
+ROUND3 = {
+    "C01": "Order inside the key row: the output that stores the key precedes those that re-submit held messages (C01.R5).",
+    "C03": "SequenceObserver hands results to observers atomically (taken synchronously, only in fire / when_next_event) and EventualQueue._turn isolates each call in its own try (C03.R3).",
+    "C04": "The transit record nonce guard is an inequality test that raises (C04.R6 = C06.R1); the destination file is opened only after the free-space check and the permission prompt.",
+    "C05": "No file or directory is created before permission was granted (C05.R5).",
+    "C07": "The race wires each contender's outcome callbacks in the same loop that registers it (single wiring loop), and the listener is stopped on success and failure alike (addBoth, C07.R6).",
+    "C08": "Inside one transition the server is told before the application callback runs (C08.R8 wire-before-callback); an abandoned reconnect is also reported here.",
+    "C09": "A message is recorded as pending before it is sent (C09.R6 record-before-send).",
+    "C10": "_connect attaches the connection before replaying queued data, and the single-packet threshold agrees with the chunker (C10.R9).",
+    "C11": "The traffic timer accepts the next connection after a reconnect (C11.R7).",
+    "C12": "_get_expected tests for a complete match before divergence (C12.R4 match-first); to_be4 accepts exactly [0, 2**32) (C12.R1).",
+    "C14": "In every row of the client machines the output that records state precedes the one that notifies waiters (C14.R3).",
+    "C17": "Manager.stop is fired only by Dilator.stop (C17.R9).",
+    "C18": "SequenceObserver hand-off is atomic and EventualQueue._turn isolates calls (C18.R6).",
+    "C20": "math.* applied to a value that may be an arbitrarily large JSON integer is a sink (OverflowError).",
+}
